@@ -236,6 +236,14 @@ func decodeTotal(k *K, format string, x []byte) {
 			}
 		}
 	case "ncbi":
+		if len(x)%7 == 3 {
+			// the same bytes through a reader that fails half-way: still no panic, and an error or a matrix, never both
+			fr := &faultReader{data: x, k: len(x) / 2, forever: len(x)%2 == 0, budget: len(x) + 10000, err: faultErrors[len(x)%len(faultErrors)]}
+			if m, err := smtext.ReadNCBI(fr); err != nil && len(m) != 0 {
+				k.Failf("ncbi-partial", "ReadNCBI on a failing reader returned an error together with %d entries", len(m))
+			}
+			k.Count("ncbi_failing_reader_runs", 1)
+		}
 		m, err := smtext.ReadNCBI(bytes.NewReader(x))
 		if err != nil {
 			k.Count("error_items", 1)
@@ -267,6 +275,7 @@ func init() {
 			{Name: "mutation", QShards: 6, TShards: 12, Run: c11Mutation},
 			{Name: "samlines", QShards: 2, TShards: 6, Run: c11SamLines},
 			{Name: "fields", QShards: 2, TShards: 8, Run: c11Fields},
+			{Name: "bytes", Run: c11Bytes},
 			{Name: "fuzz", Thorough: true, Run: c11Fuzz},
 		},
 	})
@@ -495,7 +504,82 @@ func c11Fields(c *Ctx) {
 					}
 				}
 			}
+			if format == "sam" {
+				// Two more tags appended in an order the writer will reverse (tags are
+				// written sorted): what was in the middle of the accepted line ends
+				// the written one, and the other way round.
+				for _, v := range tagSoup {
+					for _, first := range []bool{true, false} {
+						mod := append([]string{}, fields[:11]...)
+						if first {
+							mod = append(mod, "zz:"+v, "AA:i:1")
+						} else {
+							mod = append(mod, "AA:i:1", "zz:"+v, "Ab:Z:x")
+						}
+						x := []byte(strings.Join(mod, "\t") + "\n")
+						k.Input("field", "appended tags")
+						k.Input("value", v)
+						k.Input("input", x)
+						decodeTotal(k, format, x)
+						k.Evals(1)
+						k.Count("tag_reorderings", 1)
+						if k.Failed() {
+							return
+						}
+					}
+				}
+			}
 			k.Nontrivial([]byte(format), []byte(line))
 		})
 	}
+}
+
+// tagSoup: "T:value" parts of optional SAM fields, well-formed and not.
+var tagSoup = []string{"Z:x", "Z:", "Z: ", "Z:x ", "Z: x", "Z:  ", "Z:x\v", "Z:\f", "Z:x\xa0", "Z:x\xc2\xa0", "Z:x\xc2\x85", "Z:\x00", "Z:\"", "Z:a:b", "Z::", "A:x", "A: ", "A:", "A:xy", "A:\xff", "A:\x7f",
+	"i:0", "i:-0", "i:+1", "i: 1", "i:1 ", "i:1e3", "i:1.0", "i:0x1f", "i:1_0", "i:9223372036854775807", "i:-9223372036854775808", "i:9223372036854775808", "i:", "i:-",
+	"f:1", "f:1.5 ", "f: 1", "f:nan", "f:-inf", "f:1e999", "f:0x1p-2", "f:1_0", "f:", "f:.", "f:1e", "H:", "H:0", "H:0g", "H:00ff", "H:00FF", "H:00 ", "H: 00", "B:c,1", "X:1", ":", "", "Z"}
+
+// c11Bytes: every byte value (and every pair with a second copy of itself) at
+// each place of small valid texts — inside names, sequences, quoted and
+// unquoted Newick labels, tag values, table labels. Deterministic: which byte
+// values a tokenizer treats as blanks, quotes or separators must not be left
+// to the seed. Monitors as everywhere in C11: no panic, bounded items, what is
+// accepted is a fixed point of its codec.
+var byteTemplates = map[string][]string{
+	"fasta":  {">nXm\nACGT\n", ">n\nACXGT\n>m\nA\n", ">X\nX\n", "X>n\nAC\n"},
+	"fastq":  {"@nXm\nACGT\n+\n!!!!\n", "@n\nAXGT\n+\n!!!!\n", "@n\nACGT\n+\n!X!!\n", "@n\nACGT\n+X\n!!!!\n", "X@n\nA\n+\n!\n"},
+	"sam":    {"qXr\t0\tref\t1\t2\t3M\t=\t3\t4\tACG\t!!!\n", "q\t0\trXf\t1\t2\tcXg\tnXt\t3\t4\tSXQ\tQXL\n", "q\t0\tr\t1\t2\tc\t=\t3\t4\tS\tQ\tzz:Z:aXb\tAA:i:1\n",
+		"q\t0\tr\t1\t2\tc\t=\t3\t4\tS\tQ\tzz:A:X\n", "q\t0\tr\t1\t2\tc\t=\t3\t4\tS\tQ\tzX:Z:v\tXz:i:1\n", "q\t0\tr\t1\t2\tc\t=\t3\t4\tS\tQ\tzz:Z:X\n", "@HD\tVN:X\nq\t0\tr\t1X\t2\tc\t=\t3\t4\tS\tQ\n"},
+	"bed":    {"cXr\t1\t2\n", "c\t1\t2\tnXm\n", "c\t1\t2\tn\t5\tX\n", "c\t1X\t2\n", "X\t1\t2\n", "c\t1\t2\tX\n"},
+	"newick": {"(aXb,c);", "('aXb',c);", "'X';", "X;", "(a:1X,b);", "(a,b)X;", "(a,b);X(c);", "('X''X',X)X;", "(a X b);", "('a'Xb);"},
+	"ncbi":   {"  A X\nA 1 2\nX 3 4\n", "  A B\nA 1X 2\nB 3 4\n", "  A B\nAX 1 2\nB 3 4\n", "#X\n  A B\nA 1 2\nB 3 4\n", "  A B\nA 1 2X\nB 3 4\n", " AXB C\nA 1 2\nC 3 4\n"},
+}
+
+func c11Bytes(c *Ctx) {
+	idx := int64(0)
+	for _, f := range c11Formats {
+		for b := 0; b < 256; b++ {
+			c.Case(idx, func(k *K) {
+				for ti, tpl := range byteTemplates[f] {
+					for _, rep := range []string{string([]byte{byte(b)}), string([]byte{byte(b), byte(b)})} {
+						x := []byte(strings.ReplaceAll(tpl, "X", rep))
+						k.Input("format", f)
+						k.Input("byte", b)
+						k.Input("template", ti)
+						k.Input("input", x)
+						decodeTotal(k, f, x)
+						k.Count("inputs_"+f, 1)
+						k.Count("byte_template_inputs", 1)
+						k.Evals(1)
+						if k.Failed() {
+							return
+						}
+					}
+				}
+				k.Nontrivial([]byte(f), []byte{byte(b)})
+			})
+			idx++
+		}
+	}
+	c.Exhaustive("bytes: every byte value at each marked place of the byte templates of every format")
 }
